@@ -487,7 +487,7 @@ var streamAssumptions = []string{
 	"precision 'n' is what services/replay uses; for the coarser values of the API parameter (u, ms, s) the recorded timestamps are multiples of that unit, so that 'identical timestamps' is meaningful",
 	"timestamps lie in [-2e18, 3e18] ns and the clock zero in [0, 2e18] so that a shifted timestamp is representable; strings are valid UTF-8 (the case file is JSON)",
 	"the replay clock is a kapacitor/clock settable clock set to year 9999 before the replay starts: Until never blocks; a 30 s bound is hang detection only (signature replay/hang)",
-	"the recording bytes are handed to ReplayStreamFromIO directly (the gzip layer of the file data source is transparent and left out)",
+	"the recording bytes are handed to ReplayStreamFromIO directly, without the gzip layer of the file data source (recording files made and replayed by the service are the subject of unit File)",
 	"excluded by construction (known findings, witnesses under replays/C18): a string field containing a newline; a measurement, tag key, tag value or field key with a backslash directly before , = space \" \\ or at its end; a field key beginning with tab or NUL. Records longer than 64 KiB (defect repaired by a fix: commit) are generated; VERIF_C18_EXCLUDE=longline excludes them again",
 }
 
